@@ -10,7 +10,7 @@ import (
 )
 
 func init() {
-	Explanations["C13"] = "Decides structural necessary conditions of 'rebasing a v2 set yields proofs valid at the target, never panics, and leaves the caller's input alone' in the Manager's rebasing method (identified by its signature ([]V2Transaction, ChainIndex, ChainIndex)): (R1) the reorg-path computation and every proof update are reached only after the basis state was found and ValidateTransactionElements succeeded for every transaction of the set (loop-guard rule); (R2) no write and no pointer handed to the proof updater reaches memory derived from the parameter — only values that passed DeepCopy are modified; (R3) every dereference of a block supplement obtained from the store in Manager methods is dominated by a non-nil test or a fresh allocation, so a pruned or unvalidated block yields an error, not a panic; (R4) outside the tip walker the reorg-path bound is a finite integer constant; (R5) the exported set-assembly methods (those using the output→transaction parent map) revalidate the pool before reading it, so confirmed transactions are never offered as unconfirmed parents; (R6) the proof updater compares an element's leaf index with the accumulator size only after excluding the ephemeral sentinel, so inputs created earlier in the same set survive a rebase; (R7) the output→position maps used for parent discovery are built per transaction kind and used only on their own list, so a lookup cannot return an unrelated transaction or panic (same check as C14.R5). The pool-side parts of 'assembling a broadcastable set' are decided under C05.R1 and C14.R3. (R8) a range loop over a list that its body appends to (the parent worklist of the set assembly, closures expanded) is enclosed in a loop whose exit tests the list's length, so ancestors of every depth are found. (R9) inside the reorg-path method (helpers and closures expanded) the bound parameter is compared, in one comparison, with a quantity formed from the lengths of both the revert list and the apply list, so the supported distance limits the whole path and not each direction separately. (R10) in package chain every id derived from a transaction by position (SiacoinOutputID, SiafundOutputID, SiafundClaimOutputID, FileContractID, V2FileContractID, Ephemeral*Output) takes its position from a range over the list of that same transaction the id belongs to (outputs for output ids, siafund inputs for claim ids, contracts for contract ids): the parent map then knows every element a pooled transaction creates. NOT decided: equality of the resulting proofs with the ledger's, parent ordering."
+	Explanations["C13"] = "Decides structural necessary conditions of 'rebasing a v2 set yields proofs valid at the target, never panics, and leaves the caller's input alone' in the Manager's rebasing method (identified by its signature ([]V2Transaction, ChainIndex, ChainIndex)): (R1) the reorg-path computation and every proof update are reached only after the basis state was found and ValidateTransactionElements succeeded for every transaction of the set (loop-guard rule); (R2) no write and no pointer handed to the proof updater reaches memory derived from the parameter — only values that passed DeepCopy are modified; (R3) every dereference of a block supplement obtained from the store in Manager methods is dominated by a non-nil test or a fresh allocation, so a pruned or unvalidated block yields an error, not a panic; (R4) outside the tip walker the reorg-path bound is a finite integer constant; (R5) the exported set-assembly methods (those using the output→transaction parent map) revalidate the pool before reading it, so confirmed transactions are never offered as unconfirmed parents; (R6) the proof updater compares an element's leaf index with the accumulator size only after excluding the ephemeral sentinel, so inputs created earlier in the same set survive a rebase; (R7) the output→position maps used for parent discovery are built per transaction kind and used only on their own list, so a lookup cannot return an unrelated transaction or panic (same check as C14.R5). The pool-side parts of 'assembling a broadcastable set' are decided under C05.R1 and C14.R3. (R8) a range loop over a list that its body appends to (the parent worklist of the set assembly, closures expanded) is enclosed in a loop whose exit tests the list's length, so ancestors of every depth are found. (R9) inside the reorg-path method (helpers and closures expanded) the bound parameter is compared, in one comparison, with a quantity formed from the lengths of both the revert list and the apply list, so the supported distance limits the whole path and not each direction separately. (R10) in package chain every id derived from a transaction by position (SiacoinOutputID, SiafundOutputID, SiafundClaimOutputID, FileContractID, V2FileContractID, Ephemeral*Output) takes its position from a range over the list of that same transaction the id belongs to (outputs for output ids, siafund inputs for claim ids, contracts for contract ids): the parent map then knows every element a pooled transaction creates. (R11) the pointer-into-loop-copy check of C05.R7 over all of package chain; (R12) in a function taking two chain indices, a success return that is not behind the callee given both lies behind their whole-value equality. NOT decided: equality of the resulting proofs with the ledger's, parent ordering."
 
 	register(&Rule{ID: "C13.R1", Prop: "C13", Floor: 3, Doc: "validate-before-update: proofs are checked against the basis before any update", Run: c13r1})
 	register(&Rule{ID: "C13.R2", Prop: "C13", Floor: 1, Doc: "caller's memory untouched: only deep copies are modified", Run: c13r2})
@@ -23,7 +23,7 @@ func init() {
 	register(&Rule{ID: "C13.R11", Prop: "C13", Floor: 4, Doc: "element pointers handed to the proof / ephemeral-element updaters point into the pooled transaction, never into a loop copy (same check as C05.R7)", Run: c05r7})
 	register(&Rule{ID: "C13.R12", Prop: "C13", Floor: 1, Doc: "a rebase between two chain indices is skipped only behind the whole-value equality of the two (not their heights)", Run: c13r12})
 	register(&Rule{ID: "C13.R10", Prop: "C13", Floor: 8, Doc: "ids derived from a transaction by position (output, claim, contract ids) use positions of the list they belong to", Run: func(c *Ctx) { derivedIDDomains(c, "chain") }})
-	register(&Rule{ID: "C13.R5", Prop: "C13", Floor: 2, Doc: "set assembly discovers parents in a revalidated pool", Run: func(c *Ctx) {
+	register(&Rule{ID: "C13.R5", Prop: "C13", Floor: 1, Doc: "set assembly discovers parents in a revalidated pool", Run: func(c *Ctx) {
 		// the parent-discovery helper: unexported Manager method returning a map keyed by Hash256
 		var pm *types.Func
 		for _, f := range c.P.MethodsOf("chain", "Manager") {
